@@ -116,22 +116,18 @@ type auditEntry struct {
 
 var c08Audit = map[string]auditEntry{
 	// --- p2pke: failures of local key material / constant configuration, not of input
-	"(*p2p/p/p2pke.Channel).Deliver$1|panic":      {1, "panic(i) when a session in slot 0/1 becomes ready: slots 0 and 1 only ever hold sessions that were ready when promoted (onReadySession/expireSessions are the only writers) and readiness is monotone (C06 INV-MONOTONE)"},
-	"(*p2p/p/p2pke.Session).writeHandshake|panic": {4, "msgCache[k] is filled in the transition that enters the state which emits it (C06 INV-PURE-GETTER checks this on the extracted state machine)"},
-	"(*p2p/p/p2pke.privateKey).Public|panic":      {1, "PublicFromPrivate of the LOCAL private key, validated when the swarm/channel was constructed"},
-	"p2p/p/p2pke.NewChannel|panic":                {2, "nil Send/AcceptKey are constructor misuse; p2pkeswarm always sets both"},
-	"p2p/p/p2pke.NewSession|panic":                {1, "noise.NewHandshakeState with the constant NN/25519/ChaChaPoly/BLAKE2b configuration cannot fail"},
-	"p2p/p/p2pke.PrettyPrint|panic":               {1, "json.MarshalIndent of the parsed InitHello (plain byte-slice fields) cannot fail; debugging helper"},
-	"p2p/p/p2pke.createPreSig|panic":              {1, "blake2b.NewXOF(64, nil) with a constant size cannot fail"},
-	"p2p/p/p2pke.makeChannelAuthClaim|panic":      {1, "signing with the local private key"},
-	"p2p/p/p2pke.makeTAI64NAuthClaim|panic":       {1, "signing with the local private key"},
-	"p2p/p/p2pke.marshal|panic":                   {1, "proto.Marshal of locally built messages whose fields are byte slices cannot fail"},
-	"p2p/p/p2pke.readInitHello|panic":             {1, "hs.WriteMessage of the fixed-size RespHello fails only on handshake misuse (wrong turn), excluded by the hsIndex state machine"},
-	"p2p/p/p2pke.readRespHello|panic":             {1, "unreachable: err was checked and returned just above (dead check of a stale variable)"},
-	"p2p/p/p2pke.writeInitHello|panic":            {1, "hs.WriteMessage of the locally built InitHello on a fresh initiator handshake"},
+	"(*p2p/p/p2pke.Channel).Deliver$1|panic": {1, "panic(i) when a session in slot 0/1 becomes ready: slots 0 and 1 only ever hold sessions that were ready when promoted (onReadySession/expireSessions are the only writers) and readiness is monotone (C06 INV-MONOTONE)"},
+	"(*p2p/p/p2pke.privateKey).Public|panic": {1, "PublicFromPrivate of the LOCAL private key, validated when the swarm/channel was constructed"},
+	"p2p/p/p2pke.NewSession|panic":           {1, "noise.NewHandshakeState with the constant NN/25519/ChaChaPoly/BLAKE2b configuration cannot fail"},
+	"p2p/p/p2pke.PrettyPrint|panic":          {1, "json.MarshalIndent of the parsed InitHello (plain byte-slice fields) cannot fail; debugging helper"},
+	"p2p/p/p2pke.createPreSig|panic":         {1, "blake2b.NewXOF(64, nil) with a constant size cannot fail"},
+	"p2p/p/p2pke.makeChannelAuthClaim|panic": {1, "signing with the local private key"},
+	"p2p/p/p2pke.makeTAI64NAuthClaim|panic":  {1, "signing with the local private key"},
+	"p2p/p/p2pke.marshal|panic":              {1, "proto.Marshal of locally built messages whose fields are byte slices cannot fail"},
+	"p2p/p/p2pke.readInitHello|panic":        {1, "hs.WriteMessage of the fixed-size RespHello fails only on handshake misuse (wrong turn), excluded by the hsIndex state machine"},
+	"p2p/p/p2pke.readRespHello|panic":        {1, "unreachable: err was checked and returned just above (dead check of a stale variable)"},
+	"p2p/p/p2pke.writeInitHello|panic":       {1, "hs.WriteMessage of the locally built InitHello on a fresh initiator handshake"},
 	// --- mbapp bitmap: constructor invariant
-	"(p2p/p/mbapp.bitMap).get|panic": {1, "collector.addPart rejects partIndex >= partCount before get/set and the bitmap was made for partCount; allSet loops i < len()"},
-	"(p2p/p/mbapp.bitMap).set|panic": {1, "same guard as get"},
 	"(p2p/p/mbapp.bitMap).get|index": {1, "buf has ceil(n/8) bytes (newBitMap) and 0 <= i < n at every caller (partIndex from a uint16, checked against partCount; allSet's loop index)"},
 	"(p2p/p/mbapp.bitMap).set|index": {4, "same as get"},
 	// --- local handler contract, not network input
@@ -152,9 +148,7 @@ var c08Audit = map[string]auditEntry{
 	"(*p2p/s/p2pkeswarm.Swarm[T]).keyForAddr|panic": {1, "same"},
 	// --- kademlia internal invariants
 	"(*p2p/p/kademlia.bucket[V]).update|panic": {1, "the update closures of Cache.Put and DHTNode.AddPeer set (or keep) Key == key"},
-	"(*p2p/p/kademlia.bucket[V]).evict|panic":  {1, "Cache.evict only picks a bucket with len() > minPerBucket >= 0"},
 	// --- queue: equal capacities
-	"(*p2p/s/swarmutil.Queue[A]).Deliver|panic": {1, "'queue is full but freelist gave us a message': queue and freelist have the same capacity and every message is in exactly one of them or held by one receiver, so a message taken from the freelist always fits the queue"},
 	// --- oids: callers iterate i < Len()
 	"(p2p/f/x509/oids.OID).At|slice": {1, "every module caller iterates i < oid.Len() = len(s)/8 (ASN1, String)"},
 	// --- TLS / net library facts
@@ -167,6 +161,18 @@ var c08Audit = map[string]auditEntry{
 	"(*p2p/p/p2pmux.muxCore[A, C, Pub]).getSwarm|assert":       {1, "mc.swarms only ever stores *muxedSwarm (open is the only writer)"},
 	"p2p/f/x509.NewCodec$2|assert":                             {1, "codec closures are applied to verifiers created by the same codec (StoreVerifier path, local keys)"},
 	"p2p/f/x509.NewCodec$4|assert":                             {1, "same, signers"},
+}
+
+// c08AuditPanicMsg: explicit panics that carry a constant message are audited by that message, wherever the
+// statement sits (moving it into a helper does not change what it asserts). message -> reason.
+var c08AuditPanicMsg = map[string]string{
+	"queue is full, but freelist gave us a message": "'queue is full but freelist gave us a message': queue and freelist have the same capacity and every message is in exactly one of them or held by one receiver, so a message taken from the freelist always fits the queue",
+	"writeHandshake without init":                   "msgCache[k] is filled in the transition that enters the state which emits it (C06 INV-PURE-GETTER checks this on the extracted state machine)",
+	"writeHandshake called before readHandshake":    "msgCache[k] is filled in the transition that enters the state which emits it (C06 INV-PURE-GETTER checks this on the extracted state machine)",
+	"Send must be set":                              "nil Send/AcceptKey are constructor misuse; p2pkeswarm always sets both",
+	"AcceptKey must be set":                         "nil Send/AcceptKey are constructor misuse; p2pkeswarm always sets both",
+	"bitMap: index out of bounds":                   "collector.addPart rejects partIndex >= partCount before get/set and the bitmap was made for partCount; allSet loops i < len()",
+	"evict from bucket with len=0":                  "Cache.evict only picks a bucket with len() > minPerBucket >= 0",
 }
 
 func c08(r *core.Report) {
@@ -241,6 +247,7 @@ func c08(r *core.Report) {
 	r.Rule("C08-ASSERT", "no unchecked type assertion reachable from packet input", 3)
 	r.Rule("C08-ARITH", "no division by a possibly-zero variable, no make with a possibly-negative length", 2)
 	usedAudit := map[string]int{}
+	usedMsg := map[string]int{}
 	audited := func(f *ssa.Function, kind string) (string, bool) {
 		k := core.FnName(f) + "|" + kind
 		e, ok := c08Audit[k]
@@ -312,7 +319,10 @@ func c08(r *core.Report) {
 					r.Violation("C08-BOUNDS", c, pos, "slice-to-array conversion with unproven length")
 				}
 			case "panic":
-				if reason, aud := audited(f, s.kind); aud {
+				if msg, isK := panicMessage(s.in.(*ssa.Panic)); isK && c08AuditPanicMsg[msg] != "" {
+					usedMsg[msg]++
+					r.OK("C08-PANIC", c+" \""+msg+"\"", pos, "audited by message: "+c08AuditPanicMsg[msg])
+				} else if reason, aud := audited(f, s.kind); aud {
 					r.OK("C08-PANIC", c, pos, "audited: "+reason)
 				} else {
 					r.Violation("C08-PANIC", c, pos, "explicit panic reachable from packet-handling code and not in the audited table")
@@ -416,6 +426,11 @@ func c08(r *core.Report) {
 		r.Check(okS && n >= 2, "C08-AUDIT-SUPPORT", core.FnName(ap)+" partIndex < partCount", p.Pos(ap.Pos()), "the bitmap is consulted only after partIndex < partCount was established", "the bitmap is indexed with a part index that was not checked against the part count: bitMap.get/set panic")
 	} else {
 		r.Fail("C08-AUDIT-SUPPORT: collector.addPart not found")
+	}
+	for m := range c08AuditPanicMsg {
+		if usedMsg[m] == 0 {
+			r.Fail("stale audit entry: no reachable panic with the message %q", m)
+		}
 	}
 	for k, e := range c08Audit {
 		if usedAudit[k] == 0 {
@@ -603,4 +618,17 @@ func arrayLenOf(t types.Type) (int64, bool) {
 
 func constantInt(c *types.Const) (int64, bool) {
 	return constant.Int64Val(c.Val())
+}
+
+// panicMessage: the constant string a panic statement is raised with.
+func panicMessage(pn *ssa.Panic) (string, bool) {
+	v := pn.X
+	if mi, ok := v.(*ssa.MakeInterface); ok {
+		v = mi.X
+	}
+	k, ok := v.(*ssa.Const)
+	if !ok || k.Value == nil || k.Value.Kind() != constant.String {
+		return "", false
+	}
+	return constant.StringVal(k.Value), true
 }
